@@ -134,6 +134,8 @@ def check_spec(spec, ctx):
         ctx.at("C06.geometry")
         geometry = conv.geometry
         union = shapely.unary_union(reference)
+        ctx.check(geometry.is_valid, "C06.geometry",
+                  lambda: f"geometry is not a valid shape: {shapely.is_valid_reason(geometry)}")
         diff = geometry.symmetric_difference(union).area
         ctx.check(diff <= TOL * max(union.area, 1e-300), "C06.geometry",
                   lambda: f"geometry (area {geometry.area}) differs from the union of the cells "
@@ -226,11 +228,14 @@ def strategy(tier):
 
 
 def cf1d_strategy(tier):
-    return S.dataset_spec(convs=["cf1d"], with_vars=False, modes=("raw", "decoded"))
+    # (also bounds that overlap their neighbours: the geometry is the UNION of the cells)
+    return S.dataset_spec(convs=["cf1d"], with_vars=False, modes=("raw", "decoded"),
+                          geom_kwargs={"bounds_kinds": ("none", "contig", "gaps", "overlap", "overlap")})
 
 
 def mesh_strategy(tier):
-    return S.dataset_spec(convs=["ugrid"], with_vars=False, modes=("raw", "decoded", "netcdf"))
+    return S.dataset_spec(convs=["ugrid"], with_vars=False, modes=("raw", "decoded", "netcdf"),
+                          geom_kwargs={"allow_overlap": True})
 
 
 SUBS = [
